@@ -274,17 +274,27 @@ class WStub:
     w(|pid|, type, mask); honours the nc_pos_charge early return of the real contract
     (weight = [|pid| = q] * w) so that restricted runs can be compared with unrestricted ones."""
 
-    def __init__(self, sy, process, pid, pos_charge=None):
+    def __init__(self, sy, process, pid, pos_charge=None, cc_spec=False, ckm_only=None):
         self.sy = sy
         self.obs_config = {"process": process, "projectilePID": pid, "nc_pos_charge": pos_charge}
         self.bad_Q2 = False
         self.pos_pid = None if pos_charge in (None, "all") else 1 + QUARK_NAMES.index(pos_charge[0])
+        self.cc_spec = cc_spec      # CC weights = their contract value 2*sum(masked |V|^2) (C02) with symbolic V
+        self.ckm_only = ckm_only    # restrict the CKM matrix to the couplings of one heavy quark (docs/fns.rst)
 
     def get_weight(self, q, Q2, ct, cc_mask=None):
         if Q2 is not self.sy.Q2:
             self.bad_Q2 = True
         if self.obs_config["process"] != "CC" and self.pos_pid is not None and abs(q) != self.pos_pid:
             return 0.0
+        if self.obs_config["process"] == "CC" and self.cc_spec:
+            from spec import ew
+
+            V = [[self.sy.V[i][j] for j in range(3)] for i in range(3)]
+            if self.ckm_only is not None:
+                keep = ew.ckm_mask(QUARK_NAMES[self.ckm_only - 1])
+                V = [[V[i][j] * keep[i][j] for j in range(3)] for i in range(3)]
+            return ew.cc_quark_weight(q, V, cc_mask or "")
         return self.sy.U("w", int(abs(q)), str(ct), str(cc_mask))
 
     def get_fl11_weight(self, q, Q2, nf, ct):
@@ -301,7 +311,7 @@ def coeff_id(coeff):
     """Identity of a coefficient-function object: class + the constructor data it was given.
     (Coefficient classes read only x, Q2, nf, masses, variation flag -- checked under C07.)"""
     d = []
-    for k in ("nf", "m2hq", "m1sq", "m2sq", "n3lo_cf_variation"):
+    for k in ("nf", "m2hq", "m1sq", "m2sq", "n3lo_cf_variation", "L", "labda"):
         if k in coeff.__dict__:
             v = coeff.__dict__[k]
             d.append((k, repr(v)))
@@ -368,9 +378,9 @@ def cell_name(c):
     return f"{c['process']}/{c['projectile']}/{c['scheme']}{c['nf_ff']}/nf={c['nf']}/{c['fonllparts']}/{c['kind']}_{c['flavor']}/pto={c['pto']},{c['pto_evol']}"
 
 
-def cell_configs(sy, c, pos_charge=None, target=None, sv=None):
+def cell_configs(sy, c, pos_charge=None, target=None, sv=None, cc_spec=False, ckm_only=None):
     cfg = make_configs(sy, process=c["process"], projectile=c["projectile"], scheme=c["scheme"], nf_ff=c["nf_ff"], pto=c["pto"], pto_evol=c["pto_evol"], fonllparts=c["fonllparts"], pos_charge=pos_charge, target=target, sv=sv)
-    cfg.managers["coupling_constants"] = WStub(sy, c["process"], PROJECTILES[c["projectile"]], pos_charge)
+    cfg.managers["coupling_constants"] = WStub(sy, c["process"], PROJECTILES[c["projectile"]], pos_charge, cc_spec=cc_spec, ckm_only=ckm_only)
     return cfg
 
 
